@@ -73,25 +73,10 @@ def _main(args, seed):
         print(f"replay: no violation ({args.replay})")
         return 0
 
-    # ---- phase A: regressions and explicit members, in the parent
-    rec0 = common.Rec()
-    reg_cases = []
-    for path in sorted(
-        glob.glob(os.path.join(common.VERIF_DIR, "regressions", f"{mod.ID}-*.json"))
-    ):
-        with open(path) as fp:
-            body = json.load(fp)
-        reg_cases.append(body["case"])
-    explicit = list(mod.explicit_cases()) if hasattr(mod, "explicit_cases") else []
-    common.run_cases(mod, reg_cases + explicit, rec0, stop_at_first=False)
-    rec0.extra["regression_cases"] += len(reg_cases)
-    rec0.extra["explicit_cases"] += len(explicit)
-    first = rec0.dump()
-    first.update(error=None, job="explicit+regressions", wall=time.time() - t0)
-
-    # ---- phase B: jobs in the pool
-    jobs = mod.jobs(args.tier, seed)
-    results = [first] + common.run_jobs(mod, jobs, args.procs)
+    # ---- regressions + explicit members (first job) and the generated / exhaustive jobs, all in the pool
+    jobs = [{"name": "explicit+regressions", "kind": "__explicit__"}] + list(mod.jobs(args.tier, seed))
+    stall = int(os.environ.get("VF_STALL_LIMIT", "300" if args.tier == "quick" else "3600"))
+    results = common.run_jobs(mod, jobs, args.procs, stall_limit=stall)
     tot, errors, per_job = common.merge(results)
     wall = time.time() - t0
 
